@@ -6,6 +6,7 @@ import (
 	"os"
 	"path/filepath"
 	"strings"
+	"sync"
 
 	"github.com/cinar/indicator/v2/asset"
 	"github.com/cinar/indicator/v2/helper"
@@ -175,6 +176,146 @@ func H_C10(kind, steps, code, seed int) {
 				vrt.AssertAt("assets_has_"+n, s, found)
 			}
 		}
+	}
+	vrt.Reach("end")
+}
+
+// H_C10_Conc: two Append calls on the SAME asset are alive at the same time (each fed
+// by its own producer), after n0 snapshots were appended sequentially. "An Append that
+// has returned is visible to every later read": once both have returned, Get holds
+// the n0 earlier snapshots first, then every snapshot of both calls exactly once,
+// each call's snapshots in their order (the order between the two calls is free).
+// Snapshots are told apart by distinct concrete dates.
+//
+// pace: 0 = both producers run freely (the interleaving is the scheduler's); 1 = the
+// producer of call A hands over its first snapshot (if any) and then waits until call
+// B has returned before it goes on; 2 = the same with A and B exchanged. The paced
+// variants pin the interleaving down by channel synchronisation alone, so a
+// counterexample replays deterministically in a native run.
+func H_C10_Conc(kind, n0, n1, n2, pace int) {
+	repo := newRepo(kind)
+	mk := func(tag string, base, n int) []*asset.Snapshot {
+		ss := make([]*asset.Snapshot, n)
+		for i := range ss {
+			c := vrt.Float64("p"+tag, i)
+			ss[i] = &asset.Snapshot{Date: vrt.Day(base + i), Open: c, High: c, Low: c, Close: c, Volume: 1}
+		}
+		return ss
+	}
+	pre, a, b := mk("s", 0, n0), mk("a", 100, n1), mk("b", 200, n2)
+	if n0 > 0 {
+		vrt.Assert("append_ok_pre", repo.Append("aaa", Src(pre, 0)) == nil)
+	}
+	var wg sync.WaitGroup
+	var errA, errB error
+	aDone, bDone := make(chan struct{}), make(chan struct{})
+	var srcA, srcB <-chan *asset.Snapshot
+	if pace == 1 {
+		srcA = gatedSrc(a, bDone)
+	} else {
+		srcA = Src(a, 0)
+	}
+	if pace == 2 {
+		srcB = gatedSrc(b, aDone)
+	} else {
+		srcB = Src(b, 0)
+	}
+	wg.Add(2)
+	go func() {
+		defer wg.Done()
+		errA = repo.Append("aaa", srcA)
+		close(aDone)
+	}()
+	go func() {
+		defer wg.Done()
+		errB = repo.Append("aaa", srcB)
+		close(bDone)
+	}()
+	wg.Wait()
+	vrt.Assert("append_ok_a", errA == nil)
+	vrt.Assert("append_ok_b", errB == nil)
+	c, err := repo.Get("aaa")
+	vrt.Assert("get_ok", err == nil)
+	if err != nil {
+		return
+	}
+	got := Collect1(c)
+	vrt.Assert("all_visible_len", len(got) == n0+n1+n2)
+	ia, ib := 0, 0
+	for i, s := range got {
+		if i < n0 {
+			vrt.AssertAt("earlier_first", i, vrt.DayOf(s.Date) == i)
+		}
+	}
+	// one pass per call, so that the checks do not depend on how the two calls interleaved
+	for i, s := range got {
+		if d := vrt.DayOf(s.Date); i >= n0 && d < 200 {
+			vrt.AssertAt("call_a_in_order", ia, d == 100+ia)
+			ia++
+		}
+	}
+	for i, s := range got {
+		if d := vrt.DayOf(s.Date); i >= n0 && d >= 200 {
+			vrt.AssertAt("call_b_in_order", ib, d == 200+ib)
+			ib++
+		}
+	}
+	vrt.Assert("call_a_complete", ia == n1)
+	vrt.Assert("call_b_complete", ib == n2)
+	vrt.Reach("end")
+}
+
+// gatedSrc: a producer that hands over its first snapshot, waits for the gate, then
+// sends the rest and closes.
+func gatedSrc(ss []*asset.Snapshot, gate <-chan struct{}) <-chan *asset.Snapshot {
+	c := make(chan *asset.Snapshot)
+	go func() {
+		for i, s := range ss {
+			if i == 1 {
+				<-gate
+			}
+			c <- s
+		}
+		if len(ss) <= 1 {
+			<-gate
+		}
+		close(c)
+	}()
+	return c
+}
+
+// H_C10_Bulk: one Append call carrying n snapshots (batching, buffering and chunking
+// logic sees sizes the short histories never reach), then Get, LastDate and a
+// GetSince from the middle.
+func H_C10_Bulk(kind, n int) {
+	repo := newRepo(kind)
+	ss := make([]*asset.Snapshot, n)
+	for i := range ss {
+		c := vrt.Float64("p", i%4) // four symbolic prices, reused
+		ss[i] = &asset.Snapshot{Date: vrt.Day(i), Open: c, High: c, Low: c, Close: c, Volume: 1}
+	}
+	vrt.Assert("append_ok", repo.Append("aaa", Src(ss, 0)) == nil)
+	c, err := repo.Get("aaa")
+	vrt.Assert("get_ok", err == nil)
+	if err == nil {
+		got := Collect1(c)
+		vrt.Assert("get_len", len(got) == n)
+		for i := range got {
+			if i < n && (vrt.DayOf(got[i].Date) != i) {
+				vrt.AssertAt("get_date", i, false)
+				break
+			}
+		}
+	}
+	d, err := repo.LastDate("aaa")
+	vrt.Assert("lastdate_ok", err == nil)
+	if err == nil {
+		vrt.Assert("lastdate", vrt.DayOf(d) == n-1)
+	}
+	c, err = repo.GetSince("aaa", vrt.Day(n/2))
+	vrt.Assert("getsince_ok", err == nil)
+	if err == nil {
+		vrt.Assert("getsince_len", len(Collect1(c)) == n-n/2)
 	}
 	vrt.Reach("end")
 }
